@@ -53,7 +53,20 @@ let rederr_a args =
    | UEUrl (_, t) -> if t = marker then "R" else "O"
    | _ -> "O") ^ " intact=1"
 
+(* rederr2: the URL is first redacted; the result has userinfo iff the input had: the model's redact_err on it *)
+let rederr2_a args =
+  let u = fst (redact (build (Array.of_list args))) in
+  let marker = [Util.z_of_int 82] in
+  (match redact_err (fun _ -> marker) u (UEUrl ([], [Util.z_of_int 79])) with
+   | UEUrl (_, t) -> if t = marker then "R" else "O"
+   | _ -> "O") ^ " intact=1"
+
+(* redact3: RedactUserinfo is a function of the URL's current fields (C16_fields): no memory of earlier calls *)
+let redact3_a _ = "second=redaction-of-current-input"
+
 let () =
+  Registry.register "rederr2" rederr2_a;
+  Registry.register "redact3" redact3_a;
   Registry.register "redact" redact_a;
   Registry.register "redact2" redact2_a;
   Registry.register "rederr" rederr_a
